@@ -21,7 +21,7 @@ CONSTANTS Drivers,          \* the I/O drivers of the resource
 VARIABLES policy,   \* fault policy: "halt" | "safe_halt" | "restart"
           wd,       \* watchdog action: "halt" | "safe_halt" | "restart"
           pc,       \* "cycle" | "decide" | "deliver" | "publish" | "faulted"
-          cause,    \* "none" | "error" | "driver" | "watchdog"
+          cause,    \* "none" | "error" | "driver" | "watchdog" | "simulation" (a disturbance injected before the cycle)
           got,      \* drivers that were offered the safe image since the fault
           visible,  \* what ResourceControl::state() shows: "Running" | "Faulted"
           err,      \* what last_error() shows
@@ -29,14 +29,15 @@ VARIABLES policy,   \* fault policy: "halt" | "safe_halt" | "restart"
 vars == <<policy, wd, pc, cause, got, visible, err, after>>
 
 Policies == {"halt", "safe_halt", "restart"}
-Causes == {"error", "driver", "watchdog"}
+Causes == {"error", "driver", "watchdog", "simulation"}
 
 \* the policy that decides about a fault of this cause
 Decider(c, p, w) == IF c = "watchdog" THEN w ELSE p
 Restarts(c, p, w) == Decider(c, p, w) = "restart"
 \* FaultDecision::from_fault_policy / from_watchdog: who applies the safe state
 SafeRequired(c, p, w) == IF c = "watchdog" THEN w \in {"halt", "safe_halt"} ELSE p = "safe_halt"
-ErrorOf(c) == CASE c = "error" -> "DivisionByZero" [] c = "driver" -> "IoDriver" [] c = "watchdog" -> "WatchdogTimeout" [] OTHER -> "none"
+ErrorOf(c) == CASE c = "error" -> "DivisionByZero" [] c = "driver" -> "IoDriver" [] c = "watchdog" -> "WatchdogTimeout"
+              [] c = "simulation" -> "SimulationFault" [] OTHER -> "none"
 
 Init == /\ policy \in Policies /\ wd \in Policies
         /\ pc = "cycle" /\ cause = "none" /\ got = {} /\ visible = "Running" /\ err = "none" /\ after = 0
